@@ -2,4 +2,5 @@
 # extra build steps of ./run setup: everything a quick check needs besides the main binary
 set -u
 /verif/tools/pre_C17.sh setup || exit 2
+/verif/tools/pre_C19.sh setup || exit 2
 exit 0
